@@ -222,6 +222,16 @@ def run_judge(ctx, module, trace_path, *, cfg=None, timeout=1800, heap="12g"):
     n = sum(1 for _ in open(trace_path))
     if n == 0:
         return 0, [], []
+    cap = os.environ.get("VERIF_CAPTURE_DIR")
+    if cap:   # selftest: keep the head of the first trace each judge configuration sees
+        dst = os.path.join(cap, f"{module}__{cfg}.ndjson")
+        if not os.path.exists(dst):
+            os.makedirs(cap, exist_ok=True)
+            with open(trace_path) as fi, open(dst, "w") as fo:
+                for i, line in enumerate(fi):
+                    if i >= int(os.environ.get("VERIF_CAPTURE_N", "1500")):
+                        break
+                    fo.write(line)
     r = run_tlc(ctx, module, cfg, workers=1, env={"TRACE": trace_path}, timeout=timeout, heap=heap,
                 want_replay=False, deque=True)
     consumed = None
